@@ -52,4 +52,20 @@ CHECKS = {
         'trusted_base': [KERNEL, AX, TIE, 'model Pangaea/Eval/Stmts.lean is a hand transcription of evaluator/eval_program.go (_evalStmts, evalDefer, evalStmts); the statement evaluator is abstract in the theorems and instantiated by a small statement language in Pangaea/Drv/C15.lean'],
         'assumptions': ['statement and deferred-expression semantics are arbitrary state transformers in the theorems', 'guard truthiness is covered by C12; here guards are literals of known truthiness'],
     },
+    'C20': {
+        'lean_modules': ['Pangaea.Theorems.C20'],
+        'theorem_modules': ['Pangaea.Theorems.C20'],
+        'generated': ['C20'],
+        'theorems': ['Pangaea.C20.generated_balanced', 'Pangaea.C20.generated_nonempty', 'Pangaea.C20.race_free_balanced', 'Pangaea.C20.race_free_generated'],
+        'harness': ['C20'],
+        'race': True,
+        'race_filter': r'hashtable\.go|symHashTable|strTable|GetSymHash|SymHash2Str',
+        'spec_is_function': True,
+        'rule': 'translator: the lock/access sequence of every function of package object touching symHashTable/strTable/lock is regenerated from source and checked (decide) to be balanced; '
+                'sampled schedules: 8 (16 thorough) goroutines x 60 (400) rounds in a -race build interning fresh symbols (identifiers, object keys, JSON keys, fresh property names, direct API) '
+                'while others convert symbols to strings (evalEnv/Env.Items, keys); non-trivial = the round interned a fresh symbol; distinct by program text',
+        'trusted_base': [KERNEL, AX, 'translator /verif/extract (go/ast) from object/*.go to action sequences; fails closed on anything it cannot classify (aliasing, lock ops in control flow, closures)',
+                         'Go memory model reduced to lock-set reasoning over one sync.RWMutex', 'Go race detector for the sampled schedules'],
+        'assumptions': ['only the two symbol tables are modelled (the property\'s shared tables)', 'sync.RWMutex semantics: writers exclude readers and writers', 'schedules of the implementation are sampled, the universal claim is the Lean theorem over the extracted lock discipline'],
+    },
 }
